@@ -59,7 +59,11 @@ fn get_summary_range_delta_indicies(
         Date::from_calendar_date(3000, time::Month::January, 1).unwrap();
     // for _, delta := range deltas[latestDeltaInSummaryRangeIdx+1:] {
     for delta in &deltas[latest_delta_in_summary_range_idx + 1..] {
-        if delta.is_superficial_loss() {
+        // A sale at a loss which is not superficial now would become superficial if
+        // the summary purchase were dated inside its 30-day period, so it constrains
+        // the summary range just like an actual superficial loss does.
+        let is_loss = delta.capital_gain.map(|g| is_negative(&g)).unwrap_or(false);
+        if delta.is_superficial_loss() || is_loss {
             first_superficial_loss_period_day =
                 get_first_day_in_superficial_loss_period(delta.tx.settlement_date);
             tx_in_summary_overlaps_superficial_loss =
@@ -70,7 +74,8 @@ fn get_summary_range_delta_indicies(
                     (starting {}) of tx settled on {} (SFL of {})",
                     latest_in_summary_tx.security, latest_in_summary_tx.affiliate.name(),
                     latest_in_summary_tx.settlement_date, first_superficial_loss_period_day,
-                    delta.tx.settlement_date, *delta.sfl.as_ref().unwrap().superficial_loss,
+                    delta.tx.settlement_date,
+                    delta.sfl.as_ref().map(|s| *s.superficial_loss).unwrap_or_default(),
                 );
             }
             break;
@@ -94,8 +99,10 @@ fn get_summary_range_delta_indicies(
                 latest_summarizable_date = Some(delta.tx.settlement_date);
                 break;
             }
-            if delta.is_superficial_loss() {
-                // We've encountered another superficial loss within the summary
+            let is_loss =
+                delta.capital_gain.map(|g| is_negative(&g)).unwrap_or(false);
+            if delta.is_superficial_loss() || is_loss {
+                // We've encountered another (potentially) superficial loss within the summary
                 // range. This can be affected by previous txs, so we need to now push
                 // up the period where we can't find any txs.
                 first_superficial_loss_period_day =
